@@ -204,6 +204,18 @@ class PolygonPixelRegion(PixelRegion):
         return self.copy(vertices=vertices)
 
 
+class _NumberOfVertices(PositiveScalar):
+    """
+    Descriptor class to check that value is a valid number of vertices
+    of a regular polygon (>= 3), also when it is assigned later.
+    """
+
+    def _validate(self, value):
+        super()._validate(value)
+        if value < 3:
+            raise ValueError(f'{self.name} must be >= 3')
+
+
 class RegularPolygonPixelRegion(PolygonPixelRegion):
     """
     A regular polygon in pixel coordinates.
@@ -289,7 +301,7 @@ class RegularPolygonPixelRegion(PolygonPixelRegion):
 
     _params = ('center', 'nvertices', 'radius', 'angle')
     center = ScalarPixCoord('The center pixel position as a |PixCoord|.')
-    nvertices = PositiveScalar('The number of polygon vertices.')
+    nvertices = _NumberOfVertices('The number of polygon vertices.')
     radius = PositiveScalar('The distance from the center to any vertex in '
                             'pixels as a float.')
     angle = ScalarAngle('The rotation angle measured anti-clockwise as a '
@@ -300,8 +312,6 @@ class RegularPolygonPixelRegion(PolygonPixelRegion):
     def __init__(self, center, nvertices, radius, angle=0. * u.deg,
                  meta=None, visual=None):
 
-        if nvertices < 3:
-            raise ValueError('nvertices must be >= 3')
         self.center = center
         self.nvertices = nvertices
         self.radius = radius
